@@ -250,6 +250,7 @@ func runCheck(prop, tier string) int {
 		kf  *KnownFinding
 	}
 	var toReplay []pending
+	blocked := map[string]string{} // harness -> witness that no path reached because assertions fail before it
 	for _, h := range active {
 		bud := Budgets{Instrs: 5_000_000, CallDepth: 200, Preempt: 2}
 		if h.Instrs > 0 {
@@ -294,6 +295,13 @@ func runCheck(prop, tier string) int {
 		}
 		for _, w := range h.Reach {
 			if res.Reached[w] == 0 {
+				if len(res.Failures) > 0 {
+					// every path that could have reached the witness fails an assertion first (the witness is reached
+					// on a tree where the property holds): the failures block the harness - they are reported as
+					// violations even where they look like a recorded finding
+					blocked[h.Name] = w
+					continue
+				}
 				out.inconclusive = append(out.inconclusive, fmt.Sprintf("%s: vacuity witness %q was never reached", h.Name, w))
 			}
 		}
@@ -314,6 +322,9 @@ func runCheck(prop, tier string) int {
 					kf = c
 					break
 				}
+			}
+			if _, isBlocked := blocked[h.Name]; isBlocked {
+				kf = nil
 			}
 			toReplay = append(toReplay, pending{h, res, g, kf})
 		}
